@@ -292,6 +292,8 @@ def generate(rng: random.Random, tier: str) -> dict:
         x0, y0, ps = CRS_POOL[s_crs]
         ps = ps * rng.choice([1.0, 1.0, 0.5, 3.0])
         src = {"crs": s_crs, "aff": [ps, 0.0, x0, 0.0, -ps, y0], "shape": [sny, snx]}
+        if rng.random() < 0.15:
+            src["aff"] = [-ps, 0.0, x0 + snx * ps, 0.0, -ps, y0]  # same footprint, columns listed east to west (both steps negative)
         place = rng.choice(["contain", "contain", "partial", "partial", "disjoint", "inside", "touch"])
         dst = {
             "crs": d_crs,
